@@ -17,15 +17,15 @@ META = {
 # Defect demonstrated by this check on the unchanged /repo (see the report): lookupJSONSpace is [255]uint8, so byte 0xFF
 # in prefix or indent indexes outside it and MarshalJSONIndent panics instead of returning its documented error.
 PROPOSED_KNOWN = [
+    # one root cause (builtin.go, Capitalize: `s[i+utf8.RuneLen(r):]` after `r = unicode.ToUpper(r)` skips the width of the
+    # UPPER-CASED rune instead of the width read at i); "cause" is hostpanic or wrong-result depending on what follows
     {"kind": "known",
-     "signature": {"fam": "builtins", "fn": "Capitalize", "cause": "hostpanic", "detail": "invalid-utf8-input"},
-     "what": "builtin.Capitalize panics (slice bounds out of range) when the first non-separator is an invalid UTF-8 byte within 2 bytes of the end: it skips utf8.RuneLen(upper-cased rune) = 3 bytes instead of the 1 byte read"},
+     "signature": {"fam": "builtins", "fn": "Capitalize", "cause": "*", "detail": "invalid-utf8-input"},
+     "what": "builtin.Capitalize panics (slice bounds out of range) or drops bytes when the first non-separator is an invalid UTF-8 byte: it skips utf8.RuneLen(U+FFFD) = 3 bytes instead of the 1 byte read, e.g. Capitalize(\"\\xff\")"},
     {"kind": "known",
-     "signature": {"fam": "builtins", "fn": "Capitalize", "cause": "wrong-result", "detail": "invalid-utf8-input"},
-     "what": "builtin.Capitalize drops or garbles the bytes after an invalid UTF-8 byte that is the first non-separator (skips 3 bytes instead of 1)"},
-    {"kind": "known",
-     "signature": {"fam": "builtins", "fn": "Capitalize", "cause": "wrong-result", "detail": "non-ascii-input"},
-     "what": "builtin.Capitalize corrupts the text after the capitalised letter when its upper case has another UTF-8 width (dotless i U+0131 -> I, U+0250 -> U+2C6F): it skips the width of the upper-cased rune, not of the original"},
+     "signature": {"fam": "builtins", "fn": "Capitalize", "cause": "*", "detail": "non-ascii-input"},
+     "what": "builtin.Capitalize panics or corrupts the text after the capitalised letter when its upper case has another UTF-8 width (dotless i U+0131 -> I gives \"I\\xb1...\", U+0250 -> U+2C6F panics on \"\u0250\"): it skips the width of the upper-cased rune, not of the original"},
+    # lookupJSONSpace is [255]uint8: byte 0xFF indexes outside it
     {"kind": "known",
      "signature": {"fam": "builtins", "fn": "MarshalJSONIndent", "cause": "hostpanic", "detail": "byte-255-in-prefix-or-indent"},
      "what": "builtin.MarshalJSONIndent panics (index out of range [255] with length 255: lookupJSONSpace is [255]uint8) instead of returning its documented error when prefix or indent contains byte 0xFF"},
@@ -87,7 +87,7 @@ def run(ctx, replay_ids=None):
         mc_consts={"Deep": not ctx.quick, "Part": "main", "TableSize": 256, "TableLen": 0},
         mc_invs=["ImplMeetsRef", "RefConsistent"],
         sub="c25", trace_module="Trace_Builtins", trace_consts={"KeepPerSig": 3},
-        extra=ctx.pick(8000, 150000),
+        extra=ctx.pick(8000, 60000),
         case_from_obs=lambda o: {"id": o["id"], "fn": o["fn"], "args": o["args"]},
         corrupt=corrupt,
         nontrivial=nontrivial,
@@ -97,13 +97,14 @@ def run(ctx, replay_ids=None):
         mc_timeout=1500,
     )
     # statistics written by the Trace spec (per shard)
-    tot = {"ref_undefined": 0, "abbreviate_fits_but_abbreviated": 0, "rejected_by_signature": {}}
+    tot = {"ref_undefined": 0, "abbreviate_fits_but_abbreviated": 0, "model_drift": 0, "rejected_by_signature": {}}
     for d in sorted(ctx.work.glob("trace_[0-9]*")):
         f = d / "stats.ndjson"
         if f.exists():
             st = rig.read_ndjson(f)[0]
             tot["ref_undefined"] += st["ref_undefined"]
             tot["abbreviate_fits_but_abbreviated"] += st["abbreviate_fits_but_abbreviated"]
+            tot["model_drift"] += st.get("model_drift", 0)
             for s in st["sigs"]:
                 key = s["sig"]["fn"] + ":" + s["sig"]["cause"] + ":" + s["sig"]["detail"]
                 tot["rejected_by_signature"][key] = tot["rejected_by_signature"].get(key, 0) + s["count"]
@@ -111,10 +112,11 @@ def run(ctx, replay_ids=None):
     ctx.cov["ref_undefined_note"] = "records whose VALUE the reference does not decide (non-ASCII case mapping, unmodelled wrappers, inputs outside the documented domain); they are still judged for the panic policy"
     ctx.cov["abbreviate_note"] = ("diagnostic, not a verdict: Abbreviate(s, n) calls where s (without trailing white space) has at most n runes but more "
                                   "than n bytes and was abbreviated anyway - the doc comment does not literally forbid it")
+    ctx.cov["model_drift_note"] = "observations of QueryEscape / Abbreviate / ToKebab (ASCII) whose real result differs from the transcribed algorithm's (diagnostic)"
     ctx.cov["functions"] = functions(ctx)
     ctx.cov["bounds"] = {"deep": not ctx.quick, "alphabets": "see spec/builtins/MC_Builtins.tla",
                          "lengths": "strings <= 3 (quick) / <= 4 (thorough) over 3-17 symbol alphabets; all 256 single bytes; thorough: all 65536 byte pairs for QueryEscape and MarshalJSONIndent prefix",
-                         "random_extra": ctx.pick(8000, 150000)}
+                         "random_extra": ctx.pick(8000, 60000)}
     ctx.cov["not_covered"] = META["level_note"].split("Those calls")[0].replace("PARTIAL. ", "")
     ctx.assumptions.append("int is 64 bits wide on the machine running the check (ParseInt range, Abs special case)")
     return rc
